@@ -252,3 +252,170 @@ def txn_reset_fields(ctx, rule):
     f = m.fn(AT + "rollback_to_savepoint")
     drains = [c for c in f.calls if c.name.endswith("::drain") or c.name.endswith("::truncate") or c.name.endswith("::split_off")]
     ctx.ob(rule + ".PAIRED-DRAIN", "rollback_to_savepoint", len(drains) >= 2, "%d drain/truncate call(s) over the parallel logs" % len(drains), f.loc())
+
+
+# ---------------- index key shapes (writer vs undo agreement) ----------------
+def _buf_root(f, op, depth=12):
+    """(base local, field-name tuple) of the buffer an operand denotes, through reborrows, copies and Deref/as_slice calls"""
+    from paths import TRANSPARENT
+    pl = operand_place(op)
+    if pl is None:
+        return None
+    l, proj = pl[0], list(pl[1])
+    fields = []
+    while depth > 0:
+        depth -= 1
+        fields = [p[2] for p in proj if isinstance(p, list) and p[0] == "f"] + fields
+        if 1 <= l <= f.nargs and not f.defs().get(l):
+            return (l, tuple(fields))
+        ds = f.defs().get(l, [])
+        if len(ds) != 1:
+            return (l, tuple(fields))
+        d = ds[0]
+        if d[0] == "call":
+            c = d[2]
+            if any(c.name.endswith(t) for t in TRANSPARENT) or c.name.endswith("::as_slice") or c.name.endswith("::as_mut_slice"):
+                q = operand_place(c.args[0]) if c.args else None
+                if q is None:
+                    return (l, tuple(fields))
+                l, proj = q[0], list(q[1])
+                continue
+            return (l, tuple(fields))
+        rv = d[3]
+        if rv[0] == "use":
+            q = operand_place(rv[1])
+        elif rv[0] in ("ref", "ptr"):
+            q = rv[2]
+        else:
+            return (l, tuple(fields))
+        if q is None:
+            return (l, tuple(fields))
+        l, proj = q[0], list(q[1])
+    return (l, tuple(fields))
+
+
+def index_key_shapes(m, f, methods=("insert", "delete")):
+    """For each B-tree insert/delete in f whose key is a scratch buffer: the kinds of pieces appended to that buffer since the
+    `clear()` that dominates the call — 'E' (encode_value_as_key of a column value) and 'R' (raw bytes appended: the row id / row
+    key suffix that makes a non-unique index key distinct).  Returns list of (call, method, shape-string)."""
+    out = []
+    evs = []
+    for c in f.calls:
+        t = c.name.rsplit("::", 1)[-1]
+        if t == "clear" and c.args:
+            evs.append(("clear", c, _buf_root(f, c.args[0])))
+        elif t == "encode_value_as_key" and len(c.args) >= 2:
+            evs.append(("E", c, _buf_root(f, c.args[1])))
+        elif t in ("extend_from_slice", "extend", "push", "insert_from_slice", "extend_from_within") and c.args and ("Vec" in c.name or "SmallVec" in c.name or "smallvec" in c.name):
+            evs.append(("R", c, _buf_root(f, c.args[0])))
+    clears = [e for e in evs if e[0] == "clear"]
+
+    def nearest_clear(bb, root):
+        best = None
+        for _, c, r in clears:
+            if r == root and f.dominates(c.bb, bb) and (best is None or f.dominates(best.bb, c.bb)):
+                best = c
+        return best
+    for c in f.calls:
+        t = c.name.rsplit("::", 1)[-1]
+        if not c.name.startswith("btree::tree::BTree::") or t not in methods or len(c.args) < 2:
+            continue
+        root = _buf_root(f, c.args[1])
+        if root is None:
+            continue
+        nc = nearest_clear(c.bb, root)
+        if nc is None:
+            continue
+        kinds = []
+        for k, e, r in evs:
+            if k == "clear" or r != root or e.bb == c.bb and False:
+                continue
+            if nearest_clear(e.bb, root) is not nc:
+                continue
+            if c.bb not in f.reachable([e.bb]) or f.dominates(c.bb, e.bb) and e.bb != c.bb:
+                continue
+            kinds.append(k)
+        shape = "".join(sorted(set(kinds)))
+        out.append((c, t, shape))
+    return out
+
+
+def index_key_suffix_rule(ctx, rule, tolerated=None):
+    """INSERT stores non-unique index entries under encode(cols) || row_key and unique ones under encode(cols).  Every other place
+    that builds a multi-column index key (UPDATE, DELETE, rollback) has to make the same distinction, and the only source of it is
+    IndexDef::is_unique.  One obligation per (function, suffix kind) for multi-column key sites:
+      holds  iff the function (with its closures) consults IndexDef::is_unique.
+    suffix kind: none | unconditional | conditional (whether raw bytes are appended after the encoded columns)."""
+    m = ctx.m
+    tolerated = tolerated or {}
+    fns = [ENTRIES["insert"], ENTRIES["update"], ENTRIES["delete"], "database::transaction::<impl database::database::Database>::undo_write_entry"]
+    n = 0
+    for fid in fns:
+        f = m.fn(fid)
+        group = [f] + list(common.all_closures(m, f))
+        consults = any(c.name.endswith("IndexDef::is_unique") for g in group for c in g.calls)
+        loops = f.loops()
+        items = list(loops.items()) if isinstance(loops, dict) else list(loops)
+        kinds = {}
+        for c, t, shape in index_key_shapes_detail(m, f):
+            n += 1
+            kinds.setdefault(shape, c)
+        short = fid.rsplit("::", 1)[-1]
+        for kind, c in sorted(kinds.items()):
+            key = "%s:suffix-%s" % (short, kind)
+            if not consults and key in tolerated:
+                ctx.note("%s %s tolerated: %s" % (rule, key, tolerated[key]))
+                continue
+            ctx.ob(rule, key, consults, "multi-column index keys (%s row-key suffix) built in a function that consults IndexDef::is_unique" % kind if consults else
+                   "a multi-column index key is built with %s row-key suffix in a function that never consults IndexDef::is_unique: it cannot match "
+                   "both the unique (encode(cols)) and the non-unique (encode(cols) || row_key) entries INSERT stores" % kind, c.loc())
+    ctx.floor(rule + ".multi_column_key_sites", n, 6)
+
+
+def index_key_shapes_detail(m, f):
+    """multi-column key sites only: (call, method, suffix kind)"""
+    out = []
+    loops = f.loops()
+    items = list(loops.items()) if isinstance(loops, dict) else list(loops)
+    evs = []
+    for c in f.calls:
+        t = c.name.rsplit("::", 1)[-1]
+        if t == "clear" and c.args:
+            evs.append(("clear", c, _buf_root(f, c.args[0])))
+        elif t == "encode_value_as_key" and len(c.args) >= 2:
+            evs.append(("E", c, _buf_root(f, c.args[1])))
+        elif t in ("extend_from_slice", "extend") and c.args and ("Vec" in c.name or "SmallVec" in c.name or "smallvec" in c.name):
+            evs.append(("R", c, _buf_root(f, c.args[0])))
+    clears = [e for e in evs if e[0] == "clear"]
+
+    def nearest_clear(bb, root):
+        best = None
+        for _, c, r in clears:
+            if r == root and f.dominates(c.bb, bb) and (best is None or f.dominates(best.bb, c.bb)):
+                best = c
+        return best
+    for c in f.calls:
+        t = c.name.rsplit("::", 1)[-1]
+        if not c.name.startswith("btree::tree::BTree::") or t not in ("insert", "delete") or len(c.args) < 2:
+            continue
+        root = _buf_root(f, c.args[1])
+        nc = nearest_clear(c.bb, root) if root is not None else None
+        if nc is None:
+            continue
+        mine = [(k, e) for k, e, r in evs if k != "clear" and r == root and nearest_clear(e.bb, root) is nc
+                and c.bb in f.reachable([e.bb]) and not (f.dominates(c.bb, e.bb) and e.bb != c.bb)]
+        es = [e for k, e in mine if k == "E"]
+        rs = [e for k, e in mine if k == "R"]
+        multi = any(any(e.bb in body and nc.bb not in body for _, body in items) for e in es)
+        if not multi:
+            continue
+        kind = "none" if not rs else ("unconditional" if all(f.dominates(e.bb, c.bb) for e in rs) else "conditional")
+        out.append((c, t, kind))
+    return out
+
+
+KEY_SUFFIX_TOLERATED = {
+    "undo_write_entry:suffix-none": "rollback removes/restores non-unique index entries under encode(cols) only, so a rolled-back INSERT leaves "
+                                    "its entry behind; the stale entry points at a row key that no longer exists and index scans drop it — no wrong "
+                                    "result demonstrated (findings/c10_rollback_leak_not_observable.rs)",
+}
